@@ -205,8 +205,9 @@ def run_case(case, ctx):
             def l1ref(c):
                 return c.copy() if np.sum(np.abs(c)) <= param else np.sign(c) * simplex_ref(np.abs(c), param)
             refx = np.stack([l1ref(c) for c in cols(vh)], axis=-1) if vh.ndim == 2 else l1ref(vh)
-            inside = all(np.sum(np.abs(c)) <= param for c in cols(vh))
-            desc["class"] = cls = "inside-ball" if inside else ("mixed-or-outside")
+            inside_cols = [bool(np.sum(np.abs(c)) <= param) for c in cols(vh)]
+            # the class names the mechanism: "inside-ball" as soon as one column already lies in the ball
+            desc["class"] = cls = "inside-ball" if any(inside_cols) else "outside-ball"
 
             def feas(x):
                 for c in cols(x):
@@ -358,6 +359,17 @@ def run_case(case, ctx):
     # optimality vs reference
     ctx.count("clause/optimal")
     vv = vh.reshape(x.shape) if x.size == vh.size else vh
+    if op == "soft_sparsity":
+        # judged per column, so that a break on columns outside the ball is never hidden behind the inside-ball finding
+        rxc, xc = cols(np.asarray(refx).reshape(x.shape)), cols(x)
+        for j, (a, b) in enumerate(zip(xc, rxc)):
+            if np.max(np.abs(a - b)) > atol:
+                kcls = "inside-ball" if inside_cols[j] else "outside-ball"
+                ctx.violation("C12:soft_sparsity:optimal:%s" % kcls, "soft_sparsity column %d (%s) is not the l1-ball projection: max |out-ref| = %.3g" % (j, kcls, np.max(np.abs(a - b))),
+                              {"desc": desc, "v": v, "out": out, "ref": refx})
+                return
+        refx = None
+        comp = None
     if refx is not None:
         rx = np.asarray(refx).reshape(x.shape)
         if obj is not None:
@@ -411,5 +423,10 @@ def run_case(case, ctx):
         pu = ref.hp(np.asarray(f(u.copy()))).reshape(x.shape)
         d = pu - x
         lhs, rhs = float(np.sum(d * d)), float(np.sum(d * (ref.hp(u).reshape(x.shape) - vv)))
+        fk = key("firmly-nonexpansive")
+        if op == "soft_sparsity" and any(np.sum(np.abs(c)) <= param for c in cols(ref.hp(u))):
+            fk = "C12:soft_sparsity:firmly-nonexpansive:inside-ball"  # the second point has a column inside the ball
+        if op == "non_negative" and u.size and np.max(u) < 0:
+            fk = "C12:non_negative:firmly-nonexpansive:max-negative"
         if np.all(np.isfinite(pu)) and lhs > rhs + atol * (1 + nrm) * (1 + np.sqrt(lhs)):
-            ctx.violation(key("firmly-nonexpansive"), "%s: ||P(u)-P(v)||^2=%.6g > <P(u)-P(v),u-v>=%.6g" % (op, lhs, rhs), {"desc": desc, "v": v, "u": u})
+            ctx.violation(fk, "%s: ||P(u)-P(v)||^2=%.6g > <P(u)-P(v),u-v>=%.6g" % (op, lhs, rhs), {"desc": desc, "v": v, "u": u})
